@@ -15,6 +15,8 @@ Decided:
     advanced with wrapping arithmetic (C03.E5), so delivery does not stop after the 16-bit index wraps.
  Q8 delivered length = the length the device recorded for *that* completion: on the Ok path of pop_used the id and the
     length are read from the same used-ring slot (last-used & (SIZE-1)) and the refusal paths change nothing (C03.E1/E2).
+ Q4b exposure table: the owning queue's pop is folded over the used length L against the buffer size B: it yields the
+    slice [0, L) of the slot iff L <= B (a completely filled buffer is delivered in full) and an error otherwise.
  Q5 initial stocking: each constructor of a stocked queue adds every buffer in a loop and propagates failure.
 Not decided: "exactly once, count returns to SIZE" over histories.
 """
@@ -26,7 +28,7 @@ EXPLANATION = ("The poll / pop functions are loop-free once the queue API is tre
                "path that delivers (or consumes) a completion is required to contain the re-posting add of the slot selected by the "
                "peeked token; stocking loops are found as queue adds inside CFG cycles of the constructors.")
 CONFIGS = ['def', 'alloc', 'def-rel']    # these drivers need the `alloc` feature
-FLOORS = {'post_sites': 2, 'deliver_paths': 3, 'consume_paths': 3, 'stocking_loops': 2, 'users': 3}
+FLOORS = {'exposure_tables': 1, 'post_sites': 2, 'deliver_paths': 3, 'consume_paths': 3, 'stocking_loops': 2, 'users': 3}
 
 
 def run(F, R):
@@ -56,6 +58,7 @@ def run(F, R):
         if any(f in byrole.get('peek_used', []) for f in fns) and any(f in byrole['pop_used'] for f in fns) and any(f in byrole['add'] for f in fns):
             q1_pop_readd(F, R, M, b, roles, byrole)
     q5_stocking(F, R, M, roles, byrole)
+    q4b_exposure_table(F, R, M, roles)
     q6_no_access_after_post(F, R, M, roles)
     from .C03 import counters_rule
     counters_rule(F, R, 'Q7')
@@ -291,3 +294,71 @@ def q6_no_access_after_post(F, R, M, roles, rule='Q6', only=None):
                     'no access to the driver-owned buffer between posting it and the next pop_used',
                     'a buffer owned by the device is accessed by the driver: %s' % bad)
     R.count('post_sites', nsites)
+
+
+def q4b_exposure_table(F, R, M, roles):
+    n = 0
+    for b in F.bodies.values():
+        if b.get('impl_adt') != M.owning_adt or 'impl_trait' in b or not F.handwritten(b) or has_loop(b):
+            continue
+        if not any(bl['term']['k'] == 'call' and roles.get(bl['term'].get('fn')) == 'pop_used' for bl in b['blocks']):
+            continue
+        sg = supergraph(F, b['id'], opaque=lambda t, bb: bb['id'] in roles, tag='q4b')
+        where = fn_site(F, b['id'])
+        try:
+            paths = PathEnum(sg).run()
+        except PathLimit as e:
+            R.abstain('Q4', b['id'] + ':table', str(e), where)
+            continue
+        n += 1
+        B = 8
+        bad = None
+        rows = 0
+        for L in (0, 1, B - 1, B, B + 1, 2 * B, 4096, 0xffffffff):
+            def leaf(t, L=L):
+                if t[0] == 'discr' and t[1][0] == 'call':
+                    r = roles.get(t[1][2])
+                    if r == 'peek_used':
+                        return 1
+                    if r == 'pop_used':
+                        return 0
+                    if t[1][2].endswith('::get_mut') or t[1][2].endswith('::get'):
+                        return 1
+                if t[0] == 'field' and t[1][0] == 'downcast' and t[1][1][0] == 'call' and roles.get(t[1][1][2]) == 'pop_used':
+                    return L
+                if t[0] == 'field' and t[1][0] == 'downcast' and t[1][1][0] == 'call' and roles.get(t[1][1][2]) == 'peek_used':
+                    return 3
+                raise Unfoldable(fmt(t)[:80])
+            fo = Folder(leaf, generic={'BUFFER_SIZE': B})
+            try:
+                hit = [p for p in paths if path_holds(fo, p)]
+            except Unfoldable as e:
+                bad = 'unfoldable: %s' % e
+                break
+            rows += 1
+            if len(hit) != 1:
+                bad = 'used length %d: %d feasible paths' % (L, len(hit))
+                break
+            p = hit[0]
+            ev = err_variant(p.ret)
+            if L <= B:
+                rng = [x for x in subterms(p.ret) if x[0] == 'agg' and x[1].endswith('::Range')] if p.ret else []
+                try:
+                    got = (fo.ev(rng[0][2][0]), fo.ev(rng[0][2][1])) if rng else None
+                except Unfoldable as e:
+                    bad = 'unfoldable: %s' % e
+                    break
+                if p.panicked or ev != 'Ok' or got != (0, L):
+                    bad = 'the device wrote %d bytes into a %d-byte buffer: %s, expected the slice [0, %d)' % (
+                        L, B, 'panics' if p.panicked else ('returns %s' % ev if ev != 'Ok' else 'delivers bytes %s' % (got,)), L)
+                    break
+            else:
+                if p.panicked or ev in ('Ok', None):
+                    bad = 'the device claims %d bytes for a %d-byte buffer: %s, expected an error' % (L, B, 'panics' if p.panicked else 'delivered')
+                    break
+        R.tables += rows
+        if bad and bad.startswith('unfoldable'):
+            R.abstain('Q4', b['id'] + ':table', bad, where)
+            continue
+        R.check(bad is None, 'Q4', '%s:exposure-table' % b['id'], where, 'slice [0, L) iff L <= buffer size, else error (%d rows)' % rows, 'delivered bytes: %s' % bad)
+    R.count('exposure_tables', n)
